@@ -245,6 +245,20 @@ class IndexedList(list):
         self._reindex()
 
 
+def _syncChildren(parent, xmlnodes):
+    """Make the children of `parent` exactly `xmlnodes`, in that order: children that
+    are not listed are removed, listed nodes that are missing are inserted and
+    listed nodes that are out of place are moved."""
+    for child in list(parent):
+        if child not in xmlnodes:
+            parent.remove(child)
+    for i, xmlnode in enumerate(xmlnodes):
+        if i >= len(parent) or parent[i] is not xmlnode:
+            if xmlnode in list(parent):
+                parent.remove(xmlnode)
+            parent.insert(i, xmlnode)
+
+
 def _correctValInNode(outernode, tagname, value):
     innernode = outernode.find(tag(tagname))
     if value is None and innernode is not None:
